@@ -13,7 +13,7 @@
      answers select (never a caller-chosen stage);
    - entitlement vr v proof alloc: the limit a whitelist mint is checked against;
    - tally vr evf s cs acc: fold over the SUCCESSFUL calls of the history cs from s. *)
-From LP Require Import Num Pay Sg1 MinterVending MinterVendingProofs C03Proofs.
+From LP Require Import Num Pay Sg1 MinterVending MinterOpen MinterVendingProofs C03Proofs C03OpenProofs.
 Import ListNotations.
 Local Open Scope N_scope.
 
@@ -353,6 +353,202 @@ Example C03_ex_public_history :
    tally plain_vr (pub_total_ev 11) ex_s0 cs 0, tally plain_vr (pub_own_ev 10) ex_s0 cs 0) = (3, 3, 0, 3, 0, 3, 0).
 Proof. vm_compute. reflexivity. Qed.
 
+(* =====================================================================================
+   Part 2: the three open-edition minters (MinterOpen.ostep; variant flags ov_flex,
+   ov_merkle).  Same vocabulary: o_wl_phase, o_slot_map, o_stage_total, o_entitlement,
+   otally over the successful calls of a history (orun).
+   ===================================================================================== *)
+Theorem C03_oe_entitlement_spelled_out : forall vr v alloc,
+  o_entitlement vr v alloc =
+    if ov_flex vr then wv_flex_count v                            (* the member's own mint_count *)
+    else if ov_merkle vr then Some (match alloc with Some al => al | None => wv_limit v end)
+                                                                  (* always behind a proof, see below *)
+    else Some (wv_limit v).                                       (* Config.per_address_limit *)
+Proof. reflexivity. Qed.
+
+Theorem C03_oe_public_mint_step : forall vr s e fp wv stage proof alloc s' ms,
+  ostep vr s e fp wv (EMint stage proof alloc) = Ok (s', ms) ->
+  o_wl_phase s wv = false ->
+  o_start s <= e_now e /\ o_ended s (e_now e) = false /\
+  get (o_public s) (e_sender e) < o_pal s /\
+  get (o_public s') (e_sender e) = get (o_public s) (e_sender e) + 1 /\
+  (forall b, b <> e_sender e -> get (o_public s') b = get (o_public s) b) /\
+  (forall sl, o_slot_map s' sl = o_slot_map s sl) /\
+  (forall sl, o_stage_total s' sl = o_stage_total s sl) /\
+  o_cfg s' = o_cfg s /\ o_mintable s <> Some 0.
+Proof. exact o_public_mint_step. Qed.
+
+(* on the Merkle variant EVERY whitelist mint carries a proof the whitelist accepted for
+   the leaf (stage, sender, allocation); on the flex variant without a token count the
+   minter's own per-address limit binds as well *)
+Theorem C03_oe_whitelist_mint_step : forall vr s e fp wv stage proof alloc s' ms,
+  ostep vr s e fp wv (EMint stage proof alloc) = Ok (s', ms) ->
+  o_wl_phase s wv = true ->
+  exists v sl ent,
+    wv = Some v /\ wv_active v = true /\ o_ended s (e_now e) = false /\
+    (if ov_merkle vr then proof = true /\ wv_has_proof v = Some true else wv_has_plain v = Some true) /\
+    active_slot v = Some sl /\
+    o_entitlement vr v alloc = Some ent /\
+    get (o_slot_map s sl) (e_sender e) < ent /\
+    (ov_flex vr = true -> o_num_tokens s = None -> get (o_slot_map s sl) (e_sender e) < o_pal s) /\
+    (is_stage sl = true ->
+       exists ol, wv_stage_limit v = Some ol /\ forall lim, ol = Some lim -> o_stage_total s sl < lim) /\
+    get (o_slot_map s' sl) (e_sender e) = get (o_slot_map s sl) (e_sender e) + 1 /\
+    (forall b, b <> e_sender e -> get (o_slot_map s' sl) b = get (o_slot_map s sl) b) /\
+    (forall sl', sl' <> sl -> o_slot_map s' sl' = o_slot_map s sl') /\
+    (is_stage sl = true -> o_stage_total s' sl = o_stage_total s sl + 1) /\
+    (forall sl', sl' <> sl -> o_stage_total s' sl' = o_stage_total s sl') /\
+    o_public s' = o_public s /\
+    o_cfg s' = o_cfg s /\ o_mintable s <> Some 0.
+Proof. exact o_whitelist_mint_step. Qed.
+
+Theorem C03_oe_args_ignored_without_merkle : forall vr s e fp wv st pr al st' pr' al',
+  ov_merkle vr = false ->
+  ostep vr s e fp wv (EMint st pr al) = ostep vr s e fp wv (EMint st' pr' al').
+Proof. exact o_args_ignored_without_merkle. Qed.
+
+Theorem C03_oe_stage_only_through_proof : forall vr s e fp wv pr al st st',
+  ostep vr s e fp wv (EMint st pr al) = ostep vr s e fp wv (EMint st' pr al).
+Proof. exact o_stage_only_through_proof. Qed.
+
+Theorem C03_oe_admin_mint_step : forall vr s e fp wv rok r s' ms,
+  ostep vr s e fp wv (EMintTo rok r) = Ok (s', ms) ->
+  e_sender e = o_admin s /\
+  get (o_public s') (o_admin s) = get (o_public s) (o_admin s) + 1 /\
+  (forall b, b <> o_admin s -> get (o_public s') b = get (o_public s) b) /\
+  (forall sl, o_slot_map s' sl = o_slot_map s sl) /\
+  (forall sl, o_stage_total s' sl = o_stage_total s sl) /\
+  o_cfg s' = o_cfg s /\ o_mintable s <> Some 0 /\ o_ended s (e_now e) = false.
+Proof. exact o_admin_mint_step. Qed.
+
+(* purge: only when the sale is over (past the end time when there is one, else sold out),
+   on the flex variant also never while a stored count is non-zero *)
+Theorem C03_oe_purge_step : forall vr s e fp wv s' ms,
+  ostep vr s e fp wv EPurge = Ok (s', ms) ->
+  (match o_end s with
+   | Some en => en < e_now e
+   | None => match o_mintable s with Some m => m = 0 | None => True end
+   end) /\
+  (ov_flex vr = true -> o_mintable s = Some 0 \/ o_mintable s = None) /\
+  o_public s' = [] /\
+  o_slot_map s' SPlain = (if ov_flex vr then [] else o_slot_map s SPlain) /\
+  (forall sl, is_stage sl = true -> o_slot_map s' sl = o_slot_map s sl) /\
+  (forall sl, o_stage_total s' sl = o_stage_total s sl) /\
+  o_cfg s' = o_cfg s /\ o_mintable s' = o_mintable s.
+Proof. exact o_purge_step. Qed.
+
+(* with a clock that never runs backwards, nothing at all is minted after a successful
+   purge (o_bounded: an end time or a token count exists, as the factory enforces) *)
+Theorem C03_oe_purge_is_final : forall vr s c s1 ms cs,
+  (o_mintable s = None -> o_end s <> None) ->
+  oc_op c = EPurge -> ocstep vr s c = Ok (s1, ms) ->
+  times_from (e_now (oc_env c)) cs ->
+  otally vr (fun _ c' => if match oc_op c' with EMint _ _ _ | EMintTo _ _ => true | _ => false end then EvInc else EvNone)
+         s1 cs 0 = 0.
+Proof. exact o_purge_is_final. Qed.
+
+Theorem C03_oe_other_ops_keep_counters : forall vr s e fp wv o s' ms,
+  (match o with EMint _ _ _ | EMintTo _ _ | EPurge => false | _ => true end) = true ->
+  ostep vr s e fp wv o = Ok (s', ms) ->
+  o_public s' = o_public s /\ (forall sl, o_slot_map s' sl = o_slot_map s sl) /\
+  (forall sl, o_stage_total s' sl = o_stage_total s sl).
+Proof.
+  intros vr s e fp wv o s' ms Ho H. apply o_ctr_fields. eapply o_other_ops_keep_counters; [ | exact H ].
+  destruct o; try discriminate Ho; reflexivity.
+Qed.
+
+Theorem C03_oe_public_count_reported : forall vr a cs s,
+  get (o_public (orun vr s cs)) a = otally vr (o_pub_ev a) s cs (get (o_public s) a).
+Proof. exact o_public_count_reported. Qed.
+
+Theorem C03_oe_whitelist_count_reported : forall vr a sl cs s,
+  get (o_slot_map (orun vr s cs) sl) a = otally vr (o_wl_ev vr a sl) s cs (get (o_slot_map s sl) a).
+Proof. exact o_whitelist_count_reported. Qed.
+
+Theorem C03_oe_stage_total_reported : forall vr sl cs s,
+  is_stage sl = true ->
+  o_stage_total (orun vr s cs) sl = otally vr (o_stage_ev sl) s cs (o_stage_total s sl).
+Proof. exact o_stage_total_reported. Qed.
+
+Theorem C03_oe_mint_count_query : forall vr a cs s,
+  let pub := otally vr (o_pub_ev a) s cs (get (o_public s) a) in
+  let wl := otally vr (o_wl_ev vr a SPlain) s cs (get (o_wl s) a) +
+            (otally vr (o_wl_ev vr a SFs) s cs (get (o_fs s) a) +
+             otally vr (o_wl_ev vr a SSs) s cs (get (o_ss s) a) +
+             otally vr (o_wl_ev vr a STs) s cs (get (o_ts s) a)) in
+  oq_mint_count vr (orun vr s cs) a = if ov_flex vr then (pub, wl) else (pub + wl, 0).
+Proof. exact o_mint_count_query_reported. Qed.
+
+(* never exceeds, limit in force at each mint; the tallies restart at a successful purge,
+   after which (C03_oe_purge_is_final) nothing is minted any more *)
+Theorem C03_oe_never_exceeds_public : forall vr a s0 cs1 c s2 ms,
+  let s1 := orun vr s0 cs1 in
+  ocstep vr s1 c = Ok (s2, ms) ->
+  o_is_pub_mint_of a s1 c = true ->
+  otally vr (o_pub_ev a) s0 (cs1 ++ [c]) (get (o_public s0) a) <= o_pal s1.
+Proof. exact o_never_exceeds_public. Qed.
+
+Theorem C03_oe_never_exceeds_whitelist : forall vr a sl s0 cs1 c s2 ms,
+  let s1 := orun vr s0 cs1 in
+  ocstep vr s1 c = Ok (s2, ms) ->
+  o_is_wl_mint_of a sl s1 c = true ->
+  exists stage proof alloc v ent,
+    oc_op c = EMint stage proof alloc /\ oc_wv c = Some v /\
+    o_entitlement vr v alloc = Some ent /\
+    (ov_merkle vr = true -> proof = true /\ wv_has_proof v = Some true) /\
+    otally vr (o_wl_ev vr a sl) s0 (cs1 ++ [c]) (get (o_slot_map s0 sl) a) <= ent.
+Proof. exact o_never_exceeds_whitelist. Qed.
+
+Theorem C03_oe_never_exceeds_stage : forall vr sl s0 cs1 c s2 ms,
+  let s1 := orun vr s0 cs1 in
+  is_stage sl = true ->
+  ocstep vr s1 c = Ok (s2, ms) ->
+  o_is_wl_mint_in sl s1 c = true ->
+  exists v ol, oc_wv c = Some v /\ wv_stage_limit v = Some ol /\
+    forall lim, ol = Some lim ->
+      otally vr (o_stage_ev sl) s0 (cs1 ++ [c]) (o_stage_total s0 sl) <= lim.
+Proof. exact o_never_exceeds_stage. Qed.
+
+Theorem C03_oe_events_spelled_out : forall vr a sl s c,
+  let snd_is_a := e_sender (oc_env c) =? a in
+  let mint := match oc_op c with EMint _ _ _ => true | _ => false end in
+  let airdrop := match oc_op c with EMintTo _ _ => true | _ => false end in
+  let purge := match oc_op c with EPurge => true | _ => false end in
+  let in_slot := match oc_wv c with
+                 | Some v => match active_slot v with Some sl' => slot_eqb sl' sl | None => false end
+                 | None => false end in
+  let pubm := mint && snd_is_a && negb (o_wl_phase s (oc_wv c)) in
+  let wlm := mint && o_wl_phase s (oc_wv c) && in_slot in
+  o_pub_ev a s c = (if purge then EvReset else if pubm || (airdrop && snd_is_a) then EvInc else EvNone) /\
+  o_is_pub_mint_of a s c = pubm /\
+  o_is_wl_mint_in sl s c = wlm /\
+  o_is_wl_mint_of a sl s c = (snd_is_a && wlm) /\
+  o_wl_ev vr a sl s c =
+    (if purge && (ov_flex vr && match sl with SPlain => true | _ => false end) then EvReset
+     else if snd_is_a && wlm then EvInc else EvNone) /\
+  o_stage_ev sl s c = (if wlm then EvInc else EvNone).
+Proof.
+  intros vr a sl s c. cbn zeta.
+  unfold o_pub_ev, o_wl_ev, o_stage_ev, o_is_wl_mint_of, o_is_pub_mint_of, o_is_admin_mint_of,
+    o_is_wl_mint_in, o_is_purge, o_purge_clears, o_call_slot, osender.
+  destruct (oc_wv c) as [v|]; destruct (oc_op c); cbn [andb orb]; rewrite ?andb_false_r; cbn [andb orb]; repeat split; reflexivity.
+Qed.
+
+(* non-vacuity: open-edition-minter-merkle-wl, Merkle whitelist with Config limit 1; without
+   a proof nothing is minted, with an accepted proof for allocation 2 exactly two *)
+Definition oe_fp : ofparams := mkOFP 50 0 1000 40 0 5000 10 100 604800 (Some 9).
+Definition oe_s0 : ostate := o_init (mkOV false true) 10 None (Some 6) 2 (Some 30) 5000 (Some 9000) 100 0 100 None.
+Definition oe_call (t who : N) (wv : wlview) (proof : bool) (alloc : option N) : ocall :=
+  mkOCall (mkEnv t who [mkCoin 0 60] 20) oe_fp (Some wv) (EMint None proof alloc).
+Example C03_ex_oe_merkle :
+  let noproof := [oe_call 2000 11 (wv_merkle true) false (Some 5)] in
+  let good := [oe_call 2000 11 (wv_merkle true) true (Some 2); oe_call 2001 11 (wv_merkle true) true (Some 2);
+               oe_call 2002 11 (wv_merkle true) true (Some 2)] in
+  (get (o_wl (orun (mkOV false true) oe_s0 noproof)) 11, get (o_wl (orun (mkOV false true) oe_s0 good)) 11,
+   oq_mint_count (mkOV false true) (orun (mkOV false true) oe_s0 good) 11,
+   otally (mkOV false true) (o_wl_ev (mkOV false true) 11 SPlain) oe_s0 good 0) = (0, 2, (2, 0), 2).
+Proof. vm_compute. reflexivity. Qed.
+
 Print Assumptions C03_entitlement_spelled_out.
 Print Assumptions C03_public_mint_step.
 Print Assumptions C03_whitelist_mint_step.
@@ -372,3 +568,17 @@ Print Assumptions C03_never_exceeds_public.
 Print Assumptions C03_never_exceeds_whitelist.
 Print Assumptions C03_never_exceeds_stage.
 Print Assumptions C03_constant_limit_public.
+Print Assumptions C03_oe_public_mint_step.
+Print Assumptions C03_oe_whitelist_mint_step.
+Print Assumptions C03_oe_args_ignored_without_merkle.
+Print Assumptions C03_oe_admin_mint_step.
+Print Assumptions C03_oe_purge_step.
+Print Assumptions C03_oe_purge_is_final.
+Print Assumptions C03_oe_other_ops_keep_counters.
+Print Assumptions C03_oe_public_count_reported.
+Print Assumptions C03_oe_whitelist_count_reported.
+Print Assumptions C03_oe_stage_total_reported.
+Print Assumptions C03_oe_mint_count_query.
+Print Assumptions C03_oe_never_exceeds_public.
+Print Assumptions C03_oe_never_exceeds_whitelist.
+Print Assumptions C03_oe_never_exceeds_stage.
